@@ -405,6 +405,7 @@ package hclsyntax
 //@ ensures marks: forall k iface :: { marked(ret0, k) } marked(exprVal(old(e.Tuple), ctx), k) ==> marked(ret0, k)
 //@ loop 1 invariant len(allMarks) >= 1 && allMarks[0] == marks
 
+// verif:unit U1c props=C14
 // Every Range / StartRange method of a syntax node only reads the node.
 // verif:methods *).Range
 //@ nosafety
